@@ -222,6 +222,13 @@ impl Eng {
             }
         }
     }
+    /// (hits, misses, evictions) of the page cache (reach probe).
+    pub fn cache_stats(&self) -> (u64, u64, u64) {
+        match &self.db {
+            Some(d) => axmosdb::verif::facade::probe::cache_stats(d),
+            None => (0, 0, 0),
+        }
+    }
     pub fn explain(&self, sql: &str) -> Result<String, String> {
         self.db().explain(sql).map_err(|e| e.to_string())
     }
